@@ -1083,10 +1083,11 @@ static htp_status_t htp_martp_process_aside(htp_mpartp_t *parser, int matched) {
 }
 
 htp_status_t htp_mpartp_finalize(htp_mpartp_t *parser) {
-    if (parser->current_part != NULL) {
-        // Process buffered data, if any.
-        htp_martp_process_aside(parser, 0);
+    // Process buffered data, if any. The data set aside while testing for
+    // a boundary may be the first data of a part that does not exist yet.
+    htp_martp_process_aside(parser, 0);
 
+    if (parser->current_part != NULL) {
         // Finalize the last part.
         if (htp_mpart_part_finalize_data(parser->current_part) != HTP_OK) return HTP_ERROR;
 
